@@ -460,10 +460,14 @@ namespace occa {
     memory mem(modeDevice->malloc(bytes, src, memProps));
     mem.setDtype(dtype);
 
-    modeDevice->bytesAllocated += bytes;
-    modeDevice->maxBytesAllocated = std::max(
-      modeDevice->maxBytesAllocated, modeDevice->bytesAllocated
-    );
+    // A wrapped host pointer (use_host_pointer) is not a device allocation:
+    // ~modeBuffer_t does not subtract it, so it must not be added either
+    if (!mem.modeMemory->modeBuffer->isWrapped) {
+      modeDevice->bytesAllocated += bytes;
+      modeDevice->maxBytesAllocated = std::max(
+        modeDevice->maxBytesAllocated, modeDevice->bytesAllocated
+      );
+    }
 
     return mem;
   }
